@@ -287,3 +287,16 @@ Fixpoint collect_ranges_files (mk : N -> N -> N -> A) (id : N) (l : list (N * N 
       end
   end.
 End Routes.
+
+(* ------------------------------------------------------------------------------------------
+   Dropping a map or a region handle (0.7.w5b).  Neither GuestMemoryMmap nor GuestRegionMmap has a Drop impl
+   (src/mmap/mod.rs:370-374, 113-117): dropping a GuestMemoryMmap drops its Vec<Arc<GuestRegionMmap>>, i.e.
+   decrements the strong count of every region it lists; a region (and its mapping) goes away only with its LAST
+   handle.  Maps are persistent values here and a region shared by two maps is the same list element, so the whole
+   effect of dropping the object in slot i is that slot i is empty afterwards: every other slot is untouched. *)
+Fixpoint drop_slot {T : Type} (l : list (option T)) (i : nat) {struct l} : list (option T) :=
+  match l, i with
+  | [], _ => []
+  | _ :: t, O => None :: t
+  | x :: t, S k => x :: drop_slot t k
+  end.
